@@ -34,7 +34,7 @@ Fields == { "variables",            \* every collection of TransactionVariables 
 \* what a predecessor can do (one token = one trigger header value / driver behaviour)
 Tokens == { "match", "setvar", "capture", "deny1", "deny2", "deny3", "deny4",
             "ctlEngine", "ctlReqAccess", "ctlReqLimit", "ctlAuditEngine", "ctlAuditParts",
-            "ctlForceReqBody", "ctlRespAccess", "ctlRmId", "ctlRmRange", "ctlRmTarget", "ctlDebugLevel",
+            "ctlForceReqBody", "ctlRespAccess", "ctlRmId", "ctlRmRange", "ctlRmTarget", "ctlDebugLevel", "ctlRespProcessor",
             "allow", "allowRequest", "skip", "skipAfter",
             "spill", "respBody", "noLogging", "closeTwice", "keepReader", "tfCache", "otherArgs" }
 
@@ -52,6 +52,7 @@ Dirties(tok) ==
     [] tok = "ctlForceReqBody" -> {"ForceRequestBodyVariable", "matchedRules", "audit"}
     [] tok = "ctlRespAccess"  -> {"ResponseBodyAccess", "matchedRules", "audit"}
     [] tok = "ctlDebugLevel"  -> {"debugLogger", "matchedRules", "audit"}
+    [] tok = "ctlRespProcessor" -> {"variables", "matchedRules", "audit"}   \* the processor fails on the body: the RES_BODY_ERROR family is set
     [] tok = "ctlRmId"        -> {"ruleRemoveByID", "matchedRules", "audit"}
     [] tok = "ctlRmRange"     -> {"ruleRemoveByIDRanges", "matchedRules", "audit"}
     [] tok = "ctlRmTarget"    -> {"ruleRemoveTargetByID", "matchedRules", "audit"}
